@@ -88,9 +88,15 @@ def run_shard(rec, tier, seed, shard, nshards):
             files = []
             ok = True
             scored = []
+            # chunk jobs are separate processes in production: they need not share a seed or a generator
+            rng_mode = str(rng.choice(["same-seed", "seed-per-chunk", "none", "shared-object"]))
+            shared_gen = np.random.default_rng(int(rng.integers(0, 2**31)))
+            w["chunk_rng"] = rng_mode
+            rec.count("chunk_rng_" + rng_mode)
             for c in range(n_chunks):
                 try:
-                    h = score_chunk(scorer, thetas=None, screen=screen, distance_matrix=None, rng=np.random.default_rng(0), n_chunks=n_chunks, chunk_index=c, batch_plate_ids=batch_arg)
+                    crng = {"same-seed": lambda: np.random.default_rng(0), "seed-per-chunk": lambda: np.random.default_rng(1000 + c), "none": lambda: None, "shared-object": lambda: shared_gen}[rng_mode]()
+                    h = score_chunk(scorer, thetas=None, screen=screen, distance_matrix=None, rng=crng, n_chunks=n_chunks, chunk_index=c, batch_plate_ids=batch_arg)
                     fn = os.path.join(tmp, "sc_%d_%d.h5" % (si, c))
                     h.save_h5(fn)
                     files.append(fn)
